@@ -42,6 +42,9 @@ CHECKS = {
  "C07": ("exploration", "schema-walk mutation monitor: every single-field mutant (and boundary shift) of a corpus of accepted transactions of all forms is verified with the id kept and with the id recomputed; signature attacks (swap, replay, foreign key, dropped signer + re-sign); digest grouping for injectivity; (false,nil) and panic detection",
          "Runtime oracle over ~4.5k verifications of ~2.2k mutants of 10 accepted transactions; complete for single-field edits of these transactions, not for 'all transactions'.",
          "Trusted: ECDSA P-256 / SHA-256; the explicit uncovered-field set {txid, blockid, received_timestamp, modify_block, HD_info for v1}.", "DESIGN.md §3 C07"),
+ "C08": ("exploration", "schema-walk mutation monitor on node-formatted blocks (1..17 transactions, with / without certificate, failed-tx map, target bits): every single-field mutant as is and with the id recomputed, body edits (insert fresh / duplicate at every position, drop, swap, replace; merkle field recomputed or not), re-signing with another key",
+         "Runtime oracle over ~18k verifications per quick run; complete for single edits of the generated blocks.",
+         "Trusted: SHA-256 / ECDSA; explicit set of fields outside the three bindings (height, in_trunk, next_hash, merkle_tree list, failed-tx keys, transaction content other than its id).", "DESIGN.md §3 C08"),
 }
 NOT_YET = "check not built yet in this session (work in progress; see DESIGN.md for the planned monitor)"
 ALL = ["C%02d" % i for i in range(1, 21)]
